@@ -23,7 +23,7 @@ RULE = ('per pool: 8 metamodel configurations over three grammar variants with t
         'steps (load on a random live metamodel; occasionally create a new metamodel of a random configuration and switch '
         'to it) are compared step by step. distinct = (configuration, input, previous step); non-trivial = the step '
         'follows a failed load or a load on another configuration')
-REQUIRED = {'table_pairs_fresh_process': 100, 'history_steps': 1000, 'steps_after_failed_load': 100,
+REQUIRED = {'table_pairs_fresh_process': 40, 'history_steps': 1000, 'steps_after_failed_load': 100,
             'steps_after_other_configuration': 200, 'metamodels_recreated': 5, 'file_load_steps': 50}
 
 
